@@ -547,4 +547,25 @@ def diskAssemble (bottom top left right : List α) (half r : α) (scaleR : Bool)
   let sc := fun (p : List α) => if scaleR then [r * p.getD 0 0, r * p.getD 1 0, p.getD 2 0] else p
   { nurbs := true, dims := [3, 3], vshape := [3], isscalar := false, c := (grid.map sc).flatten }
 
+/-! ### apply_matrix with one matrix per control point -/
+
+/-- `np.matmul(A, C[..., None])` squeezed, `A` an array of `r × m` matrices whose batch shape
+`ab` broadcasts (numpy rules: right-aligned, singleton axes repeat) against the control grid
+`dims`: control point `I` is multiplied by the matrix with flat batch index
+`bcastIndex dims ab I`.  `As` = the matrices in C order of the batch shape. -/
+def matApplyB (As : List (List (List α))) (ab dims : List Nat) (r m : Nat) (c : List α) : List α :=
+  (List.range (prod dims)).flatMap (fun I =>
+    let A := As.getD (bcastIndex dims ab I) []
+    (List.range r).map (fun a => sumTo m (fun b => (A.getD a []).getD b 0 * c.getD (I * m + b) 0)))
+
+/-- `BSplineFunc.apply_matrix(A)` with an array of matrices (documented: "an array of matrices,
+one for each control point. Standard numpy broadcasting rules apply") -/
+def Func.bspApplyMatrixB (F : Func α) (As : List (List (List α))) (ab : List Nat) (r : Nat) : Func α :=
+  { F with vshape := [r], c := matApplyB As ab F.dims r F.ncomp F.c }
+
+/-- `NurbsFunc.apply_matrix(A)` with an array of matrices -/
+def Func.nurbsApplyMatrixB (F : Func α) (As : List (List (List α))) (ab : List Nat) (r : Nat) : Func α :=
+  let (C, W) := F.coeffsWeights
+  mkNurbs F.dims [r] (matApplyB As ab F.dims r (F.ncomp - 1) C) W false
+
 end Pyiga.Geo
